@@ -180,6 +180,7 @@ class Recorder:
 
     def __init__(self, est):
         self.levels = []      # (input labels, raw labels, increase)
+        self.adj0 = None
         self.refined = []
         self.index = None
         o_opt = est._optimize
@@ -187,6 +188,8 @@ class Recorder:
 
         def opt_(labels, *a, **k):
             lab_in = np.asarray(labels).copy()
+            if not self.levels and a:
+                self.adj0 = sparse.csr_matrix(a[0]).copy()      # the graph of the first round
             res = o_opt(labels, *a, **k)
             self.levels.append((lab_in, np.asarray(res[0]).copy(), float(res[1])))
             return res
@@ -291,6 +294,13 @@ def louvain_cases(ctx, cls_name, b, params, force_bipartite):
     out.append(Case(key0 + ('pipeline',), dict(sig0, output='pipeline'), run, impl, spec, nontriv, desc,
                     canon='fitted_sorted' if est.sort_clusters else None))
     ctx.count('levels:%d' % len(rec.levels))
+    if rec.adj0 is not None:
+        k0 = rec.adj0.copy()
+        k0.eliminate_zeros()
+        out.append(Case(key0 + ('shuffle',), dict(sig0, output='shuffled adjacency'), None, None,
+                        'c05.spec_shuffle %s %s %d %s %s %s' % (enc_csr(b), enc_bool(bip), k0.shape[0],
+                                                               enc_list(k0.indptr), enc_list(k0.indices),
+                                                               enc_list(rec.index)), nontriv, desc))
     for t, lv in enumerate(rec.levels):
         if len(lv[1]) != len(lv[0]):
             ctx.spec_fail(dict(sig0, output='contract:KernelLen'), desc, {'level': t, 'in': len(lv[0]), 'out': len(lv[1])})
